@@ -178,9 +178,22 @@ def observe(ctx, case):
     _subreaper()
     v, first, linkfault = vector(case)
     d = tempfile.mkdtemp(dir=ctx.wdir())
+    top = d
     try:
         missing = sorted({c17.TOOL[k[1] if k != "ld" else "ld"] for k, (b, _) in v.items() if b == "missing"})
+        # how the driver is installed and called is no part of the property: a sixth of the cases run it under a very long name
+        # (a symbolic link) and a sixth from a very deep directory, so that every message it composes gets long
+        how = case.get("argv0")
+        if how is None:
+            how = {0: "longname", 1: "deep"}.get(int(sha(case)[:6], 16) % 6, "")
+        if how == "deep":
+            d = os.path.join(d, "p" * 120, "q" * 120)
+            os.makedirs(d)
         b = c17.install(ctx, TRIPLE, d, missing=missing)
+        drv = os.path.join(b, "cproc")
+        if how == "longname":
+            drv = os.path.join(b, "cproc-" + "0" * 235)
+            os.symlink("cproc", drv)
         w = os.path.join(d, "w")
         cnt = os.path.join(d, "cnt")
         os.makedirs(w)
@@ -194,7 +207,7 @@ def observe(ctx, case):
         env = {"PATH": b + ":/usr/bin:/bin", "LC_ALL": "C", "VSTUB_LOG": paths["log"], "VSTUB_DIR": cnt,
                "VSTUB_PLAN": plan_env(case, v), "VSTUB_SIZE": str(case.get("size", 0))}
         t0 = time.time()
-        argv = [os.path.join(b, "cproc")] + args
+        argv = [drv] + args
         if case.get("inherit") is not None:
             # the driver starts life with a child it did not spawn (a wrapper that backgrounds something and then execs the
             # driver); that child exits while the driver waits for its stages, and wait() reports it
@@ -245,7 +258,7 @@ def observe(ctx, case):
                     files=files, orphans=[(pid, comm) for pid, _, comm in orphans], survivors=survivors, args=args, out=out,
                     plan=env["VSTUB_PLAN"], missing=missing)
     finally:
-        shutil.rmtree(d, ignore_errors=True)
+        shutil.rmtree(top, ignore_errors=True)
 
 
 # ------------------------------------------------------------------------------------------------
